@@ -27,8 +27,8 @@ ASSUMPTIONS = ['the admitted set is taken as observed through geos_within_constr
                'designs whose feasibility or discrete score entries are within 1e-9 of flipping are neither demanded nor forbidden',
                'scoring of brute-force designs uses a pristine second copy of the diagnostics code (formula anchored by C05/C06)']
 EXHAUSTIVE = {'quick': False, 'thorough': False}
-MINIMA = {'quick': {'searches_after_caller_edits': 40, 'prune_trap_cases': 15, 'rounding_window_cases': 12, 'prior_call_cases': 60, 'shared_data_searches': 40, 'compared': 200, 'brute_designs': 3000, 'distinct_nontrivial': 80, 'cases_with_pruning': 8},
-          'thorough': {'searches_after_caller_edits': 400, 'prune_trap_cases': 150, 'rounding_window_cases': 120, 'prior_call_cases': 500, 'shared_data_searches': 400, 'compared': 2500, 'brute_designs': 200000, 'distinct_nontrivial': 1000, 'cases_with_pruning': 100}}
+MINIMA = {'quick': {'scaled_copy_cases': 10, 'searches_after_caller_edits': 40, 'prune_trap_cases': 15, 'rounding_window_cases': 12, 'prior_call_cases': 60, 'shared_data_searches': 40, 'compared': 200, 'brute_designs': 3000, 'distinct_nontrivial': 80, 'cases_with_pruning': 8},
+          'thorough': {'scaled_copy_cases': 100, 'searches_after_caller_edits': 400, 'prune_trap_cases': 150, 'rounding_window_cases': 120, 'prior_call_cases': 500, 'shared_data_searches': 400, 'compared': 2500, 'brute_designs': 200000, 'distinct_nontrivial': 1000, 'cases_with_pruning': 100}}
 N = {'quick': 640, 'thorough': 4800}
 CASE_TIMEOUT = {'quick': 300, 'thorough': 1200}
 
@@ -60,6 +60,32 @@ def degenerate_pair_exists(truth, admitted):
     if not (abs(c) < 1 - 1e-12):
       return True
   return False
+
+
+def scaled_copy_case(r, g, G):
+  """Two treatment-only geos, one a copy of the other scaled by 1 - d with d in 1e-10 .. 5e-10: designs that differ
+  only in which of the two is treated have last score entries a few 1e-10 apart (relative) - distinct, not tied."""
+  from mmv import gen
+  case = sl.make_case(r, g, G, cls='continuous', allow=('size',), elig_mode='ctx', elig_extra='none', n_dates=r.randrange(15, 60))
+  pn = case['panel']
+  if any(f.startswith('unit=') for f in pn['features']):
+    return None
+  a, b = r.sample(range(G), 2)
+  d = r.choice([1e-10, 2e-10, 5e-10])
+  pn['values'][b] = pn['values'][a] * (1.0 - d)
+  pn['present'][:] = True
+  pn['dups'] = None
+  pn['features'] = list(pn['features']) + ['scaled_copy:%d,%d,%g' % (a, b, d)]
+  ids = [str(i) for i in pn['ids']]
+  case['elig_rows'] = {gid: ('tx' if k in (a, b) else r.choice(['cx', 'ctx', 'cx'])) for k, gid in enumerate(ids)}
+  case['frame'] = gen.panel_frame(pn, r, shuffle=True)
+  kw = {k: v for k, v in case['params'].items() if k not in ('treatment_geos_range', 'control_geos_range', 'geo_ratio_tolerance',
+                                                             'volume_ratio_tolerance', 'budget_range', 'n_geos_max',
+                                                             'treatment_share_range')}
+  kw['n_designs'] = r.choice([1, 1, 2, 3])
+  case['params'] = kw
+  case['prior_long_window'] = False
+  return case
 
 
 def prune_trap_case(r, g):
@@ -144,6 +170,13 @@ def run_case(spec):
     if trap is not None:
       case, G, focus, cls = trap, len(trap['panel']['ids']), 'trap', 'trap'
       counters['prune_trap_cases'] += 1
+  sp.NEAR_RTOL[0] = 1e-9
+  if spec['idx'] % 16 == 11 and G >= 3 and cls is None:
+    sc = scaled_copy_case(r, g, G)
+    if sc is not None:
+      case, focus, cls = sc, 'scaled_copy', 'scaled_copy'
+      counters['scaled_copy_cases'] += 1
+      sp.NEAR_RTOL[0] = 1e-11          # well-conditioned panel: float noise in the last score entry is ~1e-13
   truth = sl.Truth(case)
   violations = []
   if cls == 'marginal':
